@@ -1,7 +1,7 @@
 //@ crate: grin_core
 //@ target: core/src/core/merkle_proof.rs
 //@ profile: release-arith
-//@ assume: Kani checks arithmetic overflow with debug semantics and stops a path at a wrap; wraps are recorded (evidence: arithmetic_wraps_not_explored_beyond) and behaviour after a wrap is NOT explored
+//@ assume: Kani checks arithmetic overflow with debug semantics and stops a path at a wrap; a wrap at a site listed under wraps_known is recorded (evidence: arithmetic_wraps), any other wrap is replayed natively with wrapping arithmetic -- a panic there is a violation, otherwise the harness is undecided
 //@ assume: KReader (units/_shared/grin_core.support.rs) models BinReader over a byte slice: big-endian, EOF => Err, reads > 100_000 bytes refused; BinReader/BufReader are verified against this behaviour in C11/readers
 //@ assume: alloc::fmt::format stubbed to String::new() (error message text is not part of any contract)
 //@ assume: allocation bound: one with_capacity request may not exceed 100_000 + 64 * input_len bytes (the precise reading of "a small multiple of the input length")
